@@ -217,6 +217,21 @@ def run(ctx, res):
                         ok_fill = True
         res.check(ok_copy, 'TABLE', fn + '/' + fam, 'the first %d address octets are the CRC input prefix' % n, key='octets:' + fam)
         res.check(ok_mask, 'TABLE', fn + '/' + fam, 'the %s mask table equals BEP42 %s and is applied to octets 0..%d' % (fam, ['%02x' % x for x in want_mask], n), detail=str(sorted(masks_seen)), key='mask:' + fam)
+        # one computation for every address of the family: each way out goes through the checksum, and nothing but the address
+        # family (and loop control) decides the path - no class of addresses gets an id made some other way
+        stray = []
+        for p in rets:
+            if not any(e[0] == 'call' and e[1] == 'crc32c::crc32c_append' for e in p.effects):
+                stray.append('an exit without the checksum')
+            for c in p.conds:
+                l = literal(c)
+                if l[0] == 'variant' and (is_param(l[1], 'ip') or (isinstance(l[1], tuple) and l[1][0] == 'call' and l[1][1].split('::')[-1] == 'next')):
+                    continue
+                if l[0] in ('bool', 'lt', 'eq') and term_int(l[1]) is not None and (not isinstance(l[2], tuple) or term_int(l[2]) is not None):
+                    continue
+                stray.append('decided by %s' % fmt(l[1])[:60])
+        res.check(not stray and rets, 'FLOW', fn + '/' + fam, 'every %s address takes the one BEP42 computation (no exit without the checksum, no branch on the address value)' % fam,
+                  detail='; '.join(sorted(set(stray))[:3]), key='single-computation:' + fam)
         res.check(ok_rand and not bad_fixed, 'FLOW', fn + '/' + fam, 'one random byte is mixed (OR) into the first masked octet', key='rand-mix:' + fam)
         res.check(ok_crc, 'FLOW', fn + '/' + fam, 'crc32c_append(0, masked_prefix[0..%d]) over the array holding the masked, random-mixed octets' % n, key='crc-input:' + fam)
         res.check(ok_id, 'FLOW', fn + '/' + fam, 'id[0], id[1], id[2] derive from that CRC and id[19] is the same random byte that went into the CRC input', detail='; '.join(why[:1]), key='id-bytes:' + fam)
